@@ -242,9 +242,9 @@ class Facts:
 def split_generics(s):
     out, depth, cur = [], 0, ""
     for c in s:
-        if c == "<":
+        if c in "<([":
             depth += 1
-        elif c == ">":
+        elif c in ">)]" and not cur.endswith("-"):
             depth -= 1
         if c == "," and depth == 0:
             out.append(cur.strip())
